@@ -187,6 +187,39 @@ pub fn run(mon: &mut Monitor, log_path: &std::path::Path) -> std::io::Result<u64
                     json!({"phi_bits": c.phi.to_bits(), "ev": vcore::hex(&c.ev), "stake": c.stake, "total": c.total}));
             }
         }
+        // purity: the decision is a function of its four inputs only, whatever the thread evaluated
+        // just before. A call with the SAME (stake, total) and another phi_f (then another stake
+        // and the same phi_f) is made right before the case is evaluated again; the second decision
+        // must equal the first and is logged for the exact judge as well.
+        for (ci, c) in cases.iter().enumerate().step_by(7) {
+            if c.phi >= 1.0 {
+                continue;
+            }
+            let first = is_lottery_won(c.phi, c.ev, c.stake, c.total);
+            let other_phi = *rnd::pick(&mut rng, &[0.05f64, 0.2, 0.5, 0.8, 0.95, 0.999]);
+            let other_phi = if other_phi == c.phi { 0.65 } else { other_phi };
+            let disturb = if ci % 2 == 0 {
+                is_lottery_won(other_phi, c.ev, c.stake, c.total)
+            } else {
+                is_lottery_won(c.phi, c.ev, c.stake / 2 + 1, c.total.max(c.stake / 2 + 1))
+            };
+            let _ = disturb;
+            let again = is_lottery_won(c.phi, c.ev, c.stake, c.total);
+            mon.eval();
+            mon.count("cases:purity_re_evaluation_after_a_neighbouring_call");
+            writeln!(f, "{}", json!({"phi_bits": c.phi.to_bits(), "ev": vcore::hex(&c.ev), "stake": c.stake, "total": c.total, "won": again, "tag": "after_neighbouring_call"}))?;
+            logged += 1;
+            if ci % 2 == 0 {
+                // the disturbing call itself is a decision right after one with the same stake share
+                writeln!(f, "{}", json!({"phi_bits": other_phi.to_bits(), "ev": vcore::hex(&c.ev), "stake": c.stake, "total": c.total, "won": disturb, "tag": "same_stake_share_other_phi_in_a_row"}))?;
+                logged += 1;
+            }
+            if again != first {
+                mon.violation("C08 decision depends on the call evaluated before (not a function of its inputs)",
+                    "the same inputs give another decision after a call with the same stake share and another phi_f (or another stake) on the same thread",
+                    json!({"phi_bits": c.phi.to_bits(), "ev": vcore::hex(&c.ev), "stake": c.stake, "total": c.total, "first": first, "again": again, "other_phi_bits": other_phi.to_bits()}));
+            }
+        }
         // monotonicity chains
         monotone_chains(mon, &mut rng);
     }
